@@ -22,6 +22,8 @@ pub enum FeR {
     Two,
     /// p - 1 - k
     PMinus(u8),
+    /// p - 2^j + d (mod p): offsets from the modulus that span more than one limb
+    PMinusPow2(u16, i8),
     /// (p-1)/2 + k  (k = 0: largest "non-negative half", k = 1: (p+1)/2)
     Half(u8),
     /// 2^k mod p
@@ -52,6 +54,17 @@ impl FeR {
             FeR::One => one,
             FeR::Two => Z::from(2u32),
             FeR::PMinus(k) => p - &one - Z::from(*k as u32 % 8),
+            FeR::PMinusPow2(j, d) => {
+                let bits = p.bits();
+                let pw = Z::one() << (*j as usize % (bits - 1));
+                let base = p - pw;
+                if *d >= 0 {
+                    base + Z::from(*d as u32)
+                } else {
+                    let dd = Z::from((-(*d as i32)) as u32);
+                    if base >= dd { base - dd } else { base }
+                }
+            }
             FeR::Half(k) => ((p - &one) >> 1) + Z::from(*k as u32 % 4),
             FeR::Pow2(k) => one << (*k as usize % (64 * nlimbs)),
             FeR::Pow2M1(k) => (one.clone() << (*k as usize % (64 * nlimbs))) - &one,
@@ -107,6 +120,7 @@ pub fn fe_strategy(nlimbs: usize) -> BoxedStrategy<FeR> {
         2 => Just(FeR::One),
         1 => Just(FeR::Two),
         2 => (0u8..8).prop_map(FeR::PMinus),
+        3 => (0u16..400, -2i8..=2).prop_map(|(j, d)| FeR::PMinusPow2(j, d)),
         2 => (0u8..4).prop_map(FeR::Half),
         2 => (0u16..bits).prop_map(FeR::Pow2),
         2 => (0u16..bits).prop_map(FeR::Pow2M1),
@@ -165,6 +179,8 @@ pub enum ReprR {
     Fe(FeR),
     /// p + k
     PPlus(u8),
+    /// p + 2^j + d and p - 2^j + d (sign): values around the modulus whose offset spans several limbs
+    PNearPow2(bool, u16, i8),
     /// 2^k unreduced
     Pow2(u16),
     AllOnes,
@@ -180,6 +196,16 @@ impl ReprR {
         let v = match self {
             ReprR::Fe(f) => f.build(p, nlimbs),
             ReprR::PPlus(k) => p + Z::from(*k as u32),
+            ReprR::PNearPow2(plus, j, d) => {
+                let pw = Z::one() << (*j as usize % (p.bits() - 1));
+                let base = if *plus { p + pw } else { p - pw };
+                if *d >= 0 {
+                    base + Z::from(*d as u32)
+                } else {
+                    let dd = Z::from((-(*d as i32)) as u32);
+                    if base >= dd { base - dd } else { base }
+                }
+            }
             ReprR::Pow2(k) => Z::one() << (*k as usize % width),
             ReprR::AllOnes => &m - Z::one(),
             ReprR::Raw(l) => crate::adapt::limbs_to_z(l),
@@ -204,6 +230,7 @@ pub fn repr_strategy(nlimbs: usize) -> BoxedStrategy<ReprR> {
     prop_oneof![
         6 => fe_strategy(nlimbs).prop_map(ReprR::Fe),
         2 => (0u8..4).prop_map(ReprR::PPlus),
+        4 => (any::<bool>(), 0u16..400, -2i8..=2).prop_map(|(s, j, d)| ReprR::PNearPow2(s, j, d)),
         2 => (0u16..bits).prop_map(ReprR::Pow2),
         1 => Just(ReprR::AllOnes),
         6 => proptest::collection::vec(any::<u64>(), nlimbs).prop_map(ReprR::Raw),
